@@ -152,6 +152,29 @@ theorem drop_take_append (a R : List Nat) (n : Nat) (hn : n ≤ a.length) : (a.t
   have hl : (a.take n).length = n := by rw [List.length_take]; omega
   rw [List.drop_append, hl, Nat.sub_self, List.drop_zero, List.drop_eq_nil_of_le (by omega), List.nil_append]
 
+/-- The redundancy parse of a SILK-only frame (opus_decoder.c:471-499) when the length test passes and the
+    `celt_to_silk` bit reads back: redundancy is inferred, the byte count is what the frame length leaves. -/
+theorem redundancyHeader_silk (len : Nat) (c1 : Dec) (c2s rb : Nat) (hc2s : c2s ≤ 1)
+    (hgate : tell c1 + 17 ≤ 8 * (len : Int)) (hread : Reads c1 [Op.bitLogp c2s 1])
+    (htell : (len : Int) - (tell (after c1 [Op.bitLogp c2s 1]) + 7) / 8 = (rb : Int)) :
+    redundancyHeader 1000 false (len : Int) c1 =
+      (1, c2s, rb, (len : Int) - rb,
+       { after c1 [Op.bitLogp c2s 1] with storage := (after c1 [Op.bitLogp c2s 1]).storage - rb }) := by
+  have hg : ¬ (false = true) ∧ tell c1 + 17 + (if (1000 : Nat) = 1001 then 20 else 0) ≤ 8 * (len : Int) := by
+    refine ⟨by decide, ?_⟩
+    rw [if_neg (by decide)]; omega
+  rw [redundancyHeader, if_pos hg, if_neg (by decide), redundancyBlock]
+  split
+  rename_i cs c1' hb1
+  rw [bit_spec hc2s hread] at hb1
+  obtain ⟨rfl, rfl⟩ := Prod.mk.inj hb1
+  split
+  rename_i rb' c2 hb2
+  rw [redundancyBytes, if_neg (by decide), htell] at hb2
+  obtain ⟨rfl, rfl⟩ := Prod.mk.inj hb2
+  have hsane : ¬ (((len : Int) - (rb : Int)) * 8 < tell (after c1 [Op.bitLogp c2s 1])) := by omega
+  rw [if_neg hsane, Int.toNat_natCast]
+
 /-- (2) SILK-only Opus frame WITH redundancy. -/
 theorem opus_frame_lockstep_silk_red_all (buf : List Nat) (maxData bandwidth nCh ms10 spf48 : Nat) (pk : PacketIn) (st : SilkSt)
     (c2s : Nat) (R : Bytes) (rr : Nat)
@@ -176,6 +199,95 @@ theorem opus_frame_lockstep_silk_red_all (buf : List Nat) (maxData bandwidth nCh
          tell (encRun (encInit buf (maxData - 1)) (prefixOps (silkCfg bandwidth nCh ms10) pk j)))) ∧
       decRangeFinal 1000 bandwidth nCh spf48 (silkRedFrame buf maxData (silkCfg bandwidth nCh ms10) pk c2s R rr).payload o =
         .ok (silkRedFrame buf maxData (silkCfg bandwidth nCh ms10) pk c2s R rr).rangeFinal := by
-  sorry
+  generalize hcfg : silkCfg bandwidth nCh ms10 = cfg at *
+  generalize hsz : maxData - 1 = size at *
+  have hsigE : redSigOps false true 1 c2s R.length = [Op.bitLogp c2s 1] := by
+    unfold redSigOps; simp
+  rw [hsigE] at hn herr hfit hgate ⊢
+  have hframeE : silkRedFrame buf maxData cfg pk c2s R rr =
+      { payload := (encDone (encRun (encInit buf size) (packetOps cfg pk ++ [Op.bitLogp c2s 1]))).buf.take
+          ((tell (encRun (encInit buf size) (packetOps cfg pk ++ [Op.bitLogp c2s 1])) + 7) / 8).toNat ++ R,
+        rangeFinal := (encDone (encRun (encInit buf size) (packetOps cfg pk ++ [Op.bitLogp c2s 1]))).rng ^^^ rr } := by
+    unfold silkRedFrame; rw [hsigE, hsz]
+  rw [hframeE]
+  unfold encodeAll at hn herr
+  have hnF : (encRun (encInit buf size) (packetOps cfg pk ++ [Op.bitLogp c2s 1])).nbitsTotal < 4294967296 := by
+    rw [encDone_nbitsTotal] at hn; exact hn
+  have herrF : (encRun (encInit buf size) (packetOps cfg pk ++ [Op.bitLogp c2s 1])).error = 0 := by
+    apply Classical.byContradiction; intro hne
+    exact encDone_error_mono _ hne herr
+  have hsigL : LegalRun (encRun (encInit buf size) (packetOps cfg pk)) [Op.bitLogp c2s 1] :=
+    ⟨⟨by decide, by decide⟩, trivial⟩
+  have hsigN : ∀ op ∈ [Op.bitLogp c2s 1], NoRawOp op := by
+    intro op hop; rw [List.mem_singleton] at hop; rw [hop]; trivial
+  obtain ⟨riF, acF, h0, h1, hsto⟩ := sig_run_facts buf size cfg pk [Op.bitLogp c2s 1] hs hb hok hsigN hsigL hnF herrF
+  obtain ⟨_, d1, d2, d3, d4, d5⟩ := encDone_spec _ riF.inv riF.raw riF.bytes hnF herr
+  obtain ⟨n, hn1, hn2, hext⟩ := encDone_contains_ext _ riF.inv riF.raw riF.bytes hnF herr
+  have hrngD := encDone_rng (encRun (encInit buf size) (packetOps cfg pk ++ [Op.bitLogp c2s 1]))
+  have hwf := riF.inv.wf.storage_le
+  have hil : ilog (encRun (encInit buf size) (packetOps cfg pk ++ [Op.bitLogp c2s 1])).rng ≤ 32 :=
+    ilog_le_32 ⟨riF.inv.rng_lo, riF.inv.rng_hi⟩
+  generalize he1 : encRun (encInit buf size) (packetOps cfg pk ++ [Op.bitLogp c2s 1]) = e1 at *
+  generalize heD : encDone e1 = eD at *
+  rw [hsto] at hn1 hext hwf d5
+  have htell1 : 1 ≤ tell e1 := by
+    unfold Acct rawN at acF
+    rw [h0, h1] at acF
+    unfold tell; omega
+  generalize hret : ((tell e1 + 7) / 8).toNat = ret at *
+  have hretI : (tell e1 + 7) / 8 = (ret : Int) := by omega
+  rw [hretI] at hgate
+  have hretS : ret ≤ size := by omega
+  have hnret : n ≤ ret := by
+    unfold Acct rawN at acF
+    rw [h0, h1] at acF
+    unfold tell at hretI
+    omega
+  have hretL : ret ≤ eD.buf.length := by rw [d2]; omega
+  -- the stream the decoder gets: main part followed by the redundancy frame
+  have hlenB : (eD.buf.take ret ++ R).length = ret + R.length := by
+    rw [List.length_append, List.length_take]; omega
+  have hBok : BytesOk (eD.buf.take ret ++ R) := by
+    intro b hb'
+    rcases List.mem_append.mp hb' with h | h
+    · exact d3 b (List.mem_of_mem_take h)
+    · exact hR b h
+  have hag : ∀ i, i < n → byteAt (eD.buf.take ret ++ R) (ret + R.length) i = byteAt eD.buf size i := by
+    intro i hi
+    unfold byteAt
+    rw [if_pos (by omega), if_pos (by omega)]
+    exact getD_take_append eD.buf R ret i hretL (by omega)
+  have hc := hext (eD.buf.take ret ++ R) (ret + R.length) (fun i => byteAt_lt_bytesOk hBok _ i) hag
+  have hr := rawC_noRaw eD.buf (eD.buf.take ret ++ R) size (ret + R.length) e1 h0 h1 d5
+  have hpos : 0 < ret + R.length := by omega
+  obtain ⟨r1, r2, r3, r4, r5⟩ := frame_prefix_decode buf size cfg pk st [Op.bitLogp c2s 1] [] hs hb hok hsigL trivial
+    (by rw [List.append_nil, he1]; exact hnF) (by rw [List.append_nil, he1]; exact herrF)
+    (eD.buf.take ret ++ R) (ret + R.length) hBok hpos (by rw [hlenB]; exact hpos)
+    (by rw [List.append_nil, he1]; exact hc) (by rw [he1]; exact hr)
+  rw [he1] at r5
+  -- the decoder
+  rw [← hcfg, decodeOpusFrame_silk bandwidth nCh ms10 hbw hms, hcfg]
+  refine ⟨_, rfl, ?_⟩
+  rw [decodeOpusFrameCfg, hlenB]
+  split
+  rename_i evs st1 c1 hcalls
+  have e1' : evs = (silkCalls cfg cfg.nfpp true st (decInit (eD.buf.take ret ++ R) (ret + R.length))).1 := by rw [hcalls]
+  have e2' : c1 = (silkCalls cfg cfg.nfpp true st (decInit (eD.buf.take ret ++ R) (ret + R.length))).2.2 := by rw [hcalls]
+  rw [← e2'] at r2 r3 r4 r5
+  rw [← e1'] at r1
+  have htc : tell (after c1 [Op.bitLogp c2s 1]) = tell e1 := (tell_eq_of_rn r5.rc.rng_eq r5.rc.nbits_eq).1
+  have hrh := redundancyHeader_silk (ret + R.length) c1 c2s R.length hc2s (by rw [r3]; omega) r4
+    (by rw [htc, hretI]; omega)
+  rw [hrh]
+  refine ⟨rfl, rfl, rfl, r5.err, r5.rc.rng_eq, r1, ?_⟩
+  -- final range
+  unfold decRangeFinal
+  have hlenI : ((((ret + R.length : Nat)) : Int) - (R.length : Int)).toNat = ret := by omega
+  simp only [if_true, ne_eq, Nat.succ_ne_zero, not_false_eq_true, hlenI]
+  rw [drop_take_append eD.buf R ret hretL, List.take_length]
+  obtain ⟨cf, hcf1, hcf2⟩ := hred
+  rw [hcf1]
+  simp only
+  rw [hcf2, r5.rc.rng_eq, hrngD]
 
 end Opus.OpusFrameProofs
